@@ -49,6 +49,14 @@ func genC20(seed uint64, tier string) *plan.Plan {
 	}
 	ttlShare := Pick(r, 0, 100, 300)
 	delShare := Pick(r, 50, 200, 400)
+	wipe := !skew && r.Bool(300)
+	if wipe {
+		// few keys, many deletes and a fast janitor: fragments become empty and are closed and
+		// removed again and again while compaction and eviction walk over them
+		p.Cluster.JanitorMs = Pick(r, 5, 20, 100)
+		nkeys = r.Range(2, 12)
+		delShare = Pick(r, 400, 600)
+	}
 	for i := 0; i < nops; i++ {
 		k := fmt.Sprintf("k%03d", r.Intn(nkeys))
 		switch x := r.Intn(1000); {
@@ -80,7 +88,7 @@ func genC20(seed uint64, tier string) *plan.Plan {
 		sc.Ops = append(sc.Ops, plan.Op{K: "get", Key: fmt.Sprintf("k%03d", i)})
 	}
 	p.Phases = []plan.Phase{{Name: "churn", Clients: []plan.Script{sc}}}
-	p.Variant = fmt.Sprintf("ts%d/k%d/R%d/N%d/ttl%d/del%d/skew=%v", ts, nkeys, p.Cluster.ReplicaCount, n, ttlShare, delShare, skew)
+	p.Variant = fmt.Sprintf("ts%d/k%d/R%d/N%d/ttl%d/del%d/skew=%v/wipe=%v", ts, nkeys, p.Cluster.ReplicaCount, n, ttlShare, delShare, skew, wipe)
 	p.Params["max_entry"] = int64(maxVal + 29 + 4)
 	return p
 }
